@@ -232,8 +232,8 @@ func (d *Dir) SetAdmin(user string, adminState bool) (err error) {
 }
 
 // RemoveUser removes user from the store.
-func (d *Dir) RemoveUser(user string) {
-	NewUserHash(d, user).Remove()
+func (d *Dir) RemoveUser(user string) error {
+	return NewUserHash(d, user).Remove()
 }
 
 // User holds basic information about a specific user. This is used as the
